@@ -45,12 +45,18 @@ gs  == I("gs",  "DefGate", "S", "DEFGATE S a AS SEQUENCE:\n    X a\n", {})
 k1  == I("k1",  "DefCircuit", "C", "DEFCIRCUIT C a:\n    X a\n", {})
 k1b == I("k1b", "DefCircuit", "C", "DEFCIRCUIT C a:\n    Y a\n", {})
 k2  == I("k2",  "DefCircuit", "D", "DEFCIRCUIT D a:\n    X a\n", {})
-b0  == I("b0",  "Body", "-", "X 0", {Q(0)})
-b1  == I("b1",  "Body", "-", "X 1", {Q(1)})
-b12 == I("b12", "Body", "-", "CNOT 1 2", {Q(1), Q(2)})
+b0  == GateOn("X", <<Q(0)>>)
+b1  == GateOn("X", <<Q(1)>>)
+b12 == GateOn("CNOT", <<Q(1), Q(2)>>)
 bn  == I("bn",  "Body", "-", "NOP", {})
 bp  == I("bp",  "Body", "-", "PRAGMA note", {})
-bs  == I("bs",  "Body", "-", "S 1", {Q(1)})
+bs  == GateOn("S", <<Q(1)>>)
+\* qubit placeholders (identity semantics; numbered in order of creation): on their own, mixed with a fixed
+\* qubit, two in one gate, and inside a calibration body (which resolution does not touch)
+p1  == GateOn("X", <<QPh(1)>>)
+p2f == GateOn("CNOT", <<QPh(2), Q(0)>>)
+p12 == GateOn("CNOT", <<QPh(1), QPh(2)>>)
+cp  == I("cp",  "DefCal", "DEFCAL Z 0", "DEFCAL Z 0:\n    Y {ph3}", {Q(0), QPh(3)})
 br  == I("br",  "Body", "-", "RESET", {})
 
 Full  == {e1, e1b, e2, d1, d1b, d2, f1, f1b, f2, f3, w1, w1b, w2, c1, c1b, c2, m1, m1b, m2,
@@ -63,14 +69,20 @@ Tiny  == {f1, f1b, f2, c1, c1b, e1, b0, b1}
 AllTables == {e1, e1b, d1, d1b, f1, f1b, w1, w1b, c1, c1b, m1, m1b, g1, g1b, k1, k1b, b0, b1}
 \* C10: no DEFFRAME, no frame operands, no variable qubits (DESIGN §6 C10: outside the alphabet)
 C10Alpha == {c1, c1b, c2, m1, m1b, gs, d1, b0, b1, b12, bs, bn}
+PhAlpha  == {p1, p2f, p12, cp, b1}
+\* custom qubit resolvers: the empty map, maps leaving some placeholder unresolved, a total map, and one that
+\* sends a placeholder onto a fixed qubit already in use
+Resolvers == {<<>>, <<[ph |-> 1, n |-> 5]>>, <<[ph |-> 2, n |-> 0]>>, <<[ph |-> 1, n |-> 5], [ph |-> 2, n |-> 6]>>,
+              <<[ph |-> 1, n |-> 4], [ph |-> 2, n |-> 4], [ph |-> 3, n |-> 7]>>}
 
 Prof(name, alphaA, maxA, alphaB, maxB, tail, alphaT, minT, maxT) ==
   [name |-> name, alphaA |-> alphaA, maxA |-> maxA, alphaB |-> alphaB, maxB |-> maxB,
    tail |-> tail, alphaT |-> alphaT, minT |-> minT, maxT |-> maxT]
 
 ConcatTail == {"ConcatAB", "ConcatBA", "AddAssignAB"}
+PhTail == {"Add", "Resolve", "ResolveWith", "Clone", "CloneWithoutBody", "AddAssignBA", "ConcatAB", "FromListing"}
 AllTail == {"Add", "ConcatAB", "ConcatBA", "AddAssignAB", "AddAssignBA", "ConcatBB", "Clone", "CloneWithoutBody",
-            "CloneWithoutBodySelf", "Resolve", "FromListing", "Filter", "Supplied", "New", "AddMany"}
+            "CloneWithoutBodySelf", "Resolve", "ResolveWith", "FromListing", "Filter", "Supplied", "New", "AddMany"}
 
 QuickC10Tail == AllTail \ {"ConcatBB", "AddMany"}
 Profiles ==
@@ -91,12 +103,14 @@ Profiles ==
           Prof("deep", Small, 4, {}, 0, {}, {}, 0, 0),
           Prof("bulk", Small, 3, {}, 0, {"FromListing", "AddMany"}, Small, 1, 2)}
     [] Prop = "C10" /\ Tier = "quick" ->
-         {Prof("ops", {}, 0, {}, 0, QuickC10Tail, C10Alpha \ {d1, bn}, 3, 3)}
+         {Prof("ops", {}, 0, {}, 0, QuickC10Tail \ {"ResolveWith", "New"}, C10Alpha \ {d1, bn, c2, b12}, 3, 3),
+          Prof("ph", {}, 0, {}, 0, PhTail, PhAlpha \ {b1}, 3, 3)}
     [] Prop = "C10" /\ Tier = "thorough" ->
-         {Prof("ops", {}, 0, {}, 0, AllTail, C10Alpha, 3, 3),
-          Prof("ops4", {}, 0, {}, 0, QuickC10Tail \ {"Clone"}, {c1, c1b, b0}, 4, 4)}
+         {Prof("ops", {}, 0, {}, 0, AllTail \ {"ResolveWith"}, C10Alpha, 3, 3),
+          Prof("ph", {}, 0, {}, 0, PhTail, PhAlpha, 4, 4),
+          Prof("ops4", {}, 0, {}, 0, QuickC10Tail \ {"Clone", "ResolveWith", "New", "Supplied"}, {c1, c1b, b0}, 4, 4)}
     [] Prop = "C10" /\ Tier = "deep" ->          \* for -simulate: random sequences of 8 operations
-         {Prof("ops8", {}, 0, {}, 0, AllTail, C10Alpha, 8, 8)}
+         {Prof("ops8", {}, 0, {}, 0, AllTail, C10Alpha \cup PhAlpha, 8, 8)}
     [] Prop = "C11" /\ Tier = "quick" ->
          {Prof("pairs", Tiny, 2, Tiny, 2, {"ConcatAB", "AddAssignAB"}, {}, 1, 1),
           Prof("tables", AllTables, 1, AllTables, 1, {"ConcatAB", "AddAssignAB"}, {}, 1, 1)}
@@ -151,8 +165,12 @@ TClone    == InTail("Clone") /\ K("A") /\ Do([ev |-> "Clone", dst |-> "B", a |->
 TCloneWithoutBody ==
              phase = "T" /\ \E c \in {<<"CloneWithoutBody", "B">>, <<"CloneWithoutBodySelf", "A">>} :
                 InTail(c[1]) /\ K("A") /\ Do([ev |-> "CloneWithoutBody", dst |-> c[2], a |-> "A"], "T")
-\* the generated programs have no placeholders: the resolved body is the body
-TResolve  == InTail("Resolve") /\ \E r \in Regs : K(r) /\ Do([ev |-> "Resolve", dst |-> r, body |-> regs[r].body], "T")
+\* resolve_placeholders(): the default resolver, as documented
+TResolve  == InTail("Resolve") /\ \E r \in Regs : K(r) /\
+                Do([ev |-> "Resolve", mode |-> "default", dst |-> r, map |-> DefaultResolver(regs[r])], "T")
+\* resolve_placeholders_with_custom_resolvers(default target resolver, any partial map)
+TResolveWith == InTail("ResolveWith") /\ K("A") /\
+                \E m \in Resolvers : Do([ev |-> "Resolve", mode |-> "custom", dst |-> "A", map |-> m], "T")
 TFromListing == InTail("FromListing") /\ K("A") /\
                 \E r \in Regs : Do([ev |-> "FromInstructions", dst |-> r, is |-> Listing(regs["A"])], "T")
 TFilter   == InTail("Filter") /\ K("A") /\
@@ -169,7 +187,7 @@ Advance == /\ phase \in {"A", "B", "T"}
            /\ phase' = NextPhase(prof, phase) /\ UNCHANGED <<regs, prof, hist>>
 
 MCNext == AddA \/ AddB \/ Advance \/ TAdd \/ TAddManyAll \/ TAddManyPair \/ TConcat \/ TAddAssign \/ TClone \/ TCloneWithoutBody
-          \/ TResolve \/ TFromListing \/ TFilter \/ TNew \/ TSupplied
+          \/ TResolve \/ TResolveWith \/ TFromListing \/ TFilter \/ TNew \/ TSupplied
 MCSpec == MCInit /\ [][MCNext]_mcvars
 
 ----------------------------------------------------------------------------
